@@ -300,6 +300,36 @@ impl Prop for P {
         format!("S:r=ok;c={};len={}\tM:bytes={};bw=na;st=na\tX:{}\tE:{}", fmt_kvs(&kvs), f.len(), hex(&bytes), x, e)
     }
     fn extras(&self, _tier: Tier, rng: &mut Rng, _stats: &mut Stats) -> Vec<(String, bool, String)> {
+        // the Default entry point: Set::default() / Map::default() are the empty sequence built once more
+        let default_check = {
+            let es = fst::Set::from_iter(Vec::<Vec<u8>>::new()).unwrap();
+            let em = fst::Map::from_iter(Vec::<(Vec<u8>, u64)>::new()).unwrap();
+            let eb = fst::raw::Builder::memory().into_inner().unwrap();
+            let ds = fst::Set::<Vec<u8>>::default();
+            let dm = fst::Map::<Vec<u8>>::default();
+            let mut bad = vec![];
+            if ds.as_fst().as_bytes() != es.as_fst().as_bytes() || ds.as_fst().as_bytes() != &eb[..] {
+                bad.push(format!("Set::default() has {} bytes, the builder's empty set {}", ds.as_fst().as_bytes().len(), eb.len()));
+            }
+            if dm.as_fst().as_bytes() != em.as_fst().as_bytes() || dm.as_fst().as_bytes() != &eb[..] {
+                bad.push(format!("Map::default() has {} bytes, the builder's empty map {}", dm.as_fst().as_bytes().len(), eb.len()));
+            }
+            if ds.contains("") || ds.len() != 0 || !ds.is_empty() || ds.stream().into_bytes().len() != 0 {
+                bad.push("Set::default() is not empty (contains / len / stream)".to_string());
+            }
+            if dm.contains_key("") || dm.len() != 0 || !dm.is_empty() || dm.stream().into_byte_vec().len() != 0 {
+                bad.push("Map::default() is not empty (contains_key / len / stream)".to_string());
+            }
+            ("default_is_the_empty_build".to_string(), bad.is_empty(), if bad.is_empty() { "Set::default() and Map::default() are byte-identical to the builder's empty fst and hold nothing".to_string() } else { format!("failing input: the empty sequence through the Default entry point; {}", bad.join("; ")) })
+        };
+        let mut first = vec![default_check];
+        first.extend(extras_processes(self, rng));
+        first
+    }
+}
+
+fn extras_processes(this: &P, rng: &mut Rng) -> Vec<(String, bool, String)> {
+    {
         // separate processes: re-run a sample of cases in three child processes and compare the result lines
         let exe = std::env::current_exe().unwrap();
         let dir = exe.parent().unwrap().join("c15-proc");
@@ -352,7 +382,7 @@ impl Prop for P {
             }
             outs.push(std::fs::read_to_string(&of).unwrap_or_default());
         }
-        let inproc: Vec<String> = cases.iter().map(|c| self.execute(c)).collect();
+        let inproc: Vec<String> = cases.iter().map(|c| this.execute(c)).collect();
         let ok = outs.iter().all(|o| o.lines().map(|l| l.to_string()).collect::<Vec<_>>() == inproc);
         let _ = std::fs::remove_dir_all(&dir);
         let mut detail = format!("{} builds x 3 child processes compared with the in-process result", cases.len());
